@@ -406,8 +406,47 @@ func PointLookups(r *ev.Run, h *c07.Host, prop string) (n int64) {
 				}
 			}
 		}
+		// sequences over the whole uint64 range: every record is found under exactly the sequence it was written for
+		// (every point look-up the keepers offer; values read back as written; the neighbours and the values that coincide
+		// with it after a signed or 32-bit conversion hold nothing)
+		wseqs := []uint64{1, 9, 10, 1<<31 - 1, 1 << 31, 1<<32 - 1, 1 << 32, 1<<63 - 1, 1 << 63, 1<<63 + 1, 1<<64 - 2, 1<<64 - 1}
+		isW := map[uint64]bool{}
+		for i, q := range wseqs {
+			isW[q] = true
+			v := []byte(fmt.Sprintf("v%d", i))
+			pk.SetPacketReceipt(lctx, "seq-src", "seq-dst", q)
+			pk.SetPacketAcknowledgement(lctx, "seq-src", "seq-dst", q, append([]byte("a"), v...))
+			pk.SetPacketCommitment(lctx, "seq-src", "seq-dst", q, append([]byte("c"), v...))
+		}
+		for i, q := range wseqs {
+			n++
+			v := []byte(fmt.Sprintf("v%d", i))
+			_, rc := pk.GetPacketReceipt(lctx, "seq-src", "seq-dst", q)
+			ab, aok := pk.GetPacketAcknowledgement(lctx, "seq-src", "seq-dst", q)
+			cb := pk.GetPacketCommitment(lctx, "seq-src", "seq-dst", q)
+			if !rc || !pk.HasPacketReceipt(lctx, "seq-src", "seq-dst", q) || !aok || !pk.HasPacketAcknowledgement(lctx, "seq-src", "seq-dst", q) || !pk.HasPacketCommitment(lctx, "seq-src", "seq-dst", q) ||
+				string(ab) != "a"+string(v) || string(cb) != "c"+string(v) {
+				if bad == 0 {
+					r.Violation(prop+":written-packet-record-not-found-under-its-own-triple", fmt.Sprintf("(seq-src,seq-dst,%d): receipt found=%v ack=%q(%v) commitment=%q", q, rc, ab, aok, cb), nil)
+				}
+				bad++
+			}
+			for _, o := range []uint64{q - 1, q + 1, q ^ (1 << 63), uint64(uint32(q)), uint64(int64(int32(q)))} {
+				if isW[o] || o == 0 {
+					continue
+				}
+				n++
+				_, rc := pk.GetPacketReceipt(lctx, "seq-src", "seq-dst", o)
+				if rc || pk.HasPacketReceipt(lctx, "seq-src", "seq-dst", o) || pk.HasPacketAcknowledgement(lctx, "seq-src", "seq-dst", o) || pk.HasPacketCommitment(lctx, "seq-src", "seq-dst", o) {
+					if bad == 0 {
+						r.Violation(prop+":packet-record-found-under-another-triple", fmt.Sprintf("written for sequence %d, found under %d", q, o), nil)
+					}
+					bad++
+				}
+			}
+		}
 		if bad == 0 {
-			r.Outcome("point look-ups find packet records and clients under exactly the names they were written for")
+			r.Outcome("point look-ups find packet records and clients under exactly the names and sequences they were written for")
 		}
 	return
 }
